@@ -2,6 +2,7 @@
 exception classification."""
 from .runner import Violation, unexpected
 
+import os
 import bitcoin
 from bitcoin.core import (CTransaction, CMutableTransaction, CTxIn, CMutableTxIn, CTxOut, CMutableTxOut, COutPoint,
                           CMutableOutPoint, CTxWitness, CTxInWitness, CBlock, CBlockHeader)
@@ -14,8 +15,17 @@ def mk_witness(wit):
     return CTxWitness(tuple(CTxInWitness(CScriptWitness(tuple(st))) for st in wit))
 
 
-def mk_tx(m, mutable=False, wit_mode='auto'):
-    """library transaction from a reference model. wit None -> constructor default."""
+def mk_tx(m, mutable=False, wit_mode='auto', script_as=None):
+    """library transaction from a reference model. wit None -> constructor default. script_as: how the caller holds the script
+    fields (default: CScript objects; e.g. memoryview / bytearray for bytes sliced out of a larger buffer)"""
+    if script_as is not None:
+        _CS = script_as
+        vin = [(CMutableTxIn(CMutableOutPoint(h, n), _CS(sc), seq) if mutable else CTxIn(COutPoint(h, n), _CS(sc), seq)) for h, n, sc, seq in m['vin']]
+        vout = [(CMutableTxOut if mutable else CTxOut)(v, _CS(sc)) for v, sc in m['vout']]
+        cls = CMutableTransaction if mutable else CTransaction
+        if m.get('wit') is None:
+            return cls(vin, vout, m['locktime'], m['version'])
+        return cls(vin, vout, m['locktime'], m['version'], mk_witness(m['wit']))
     if mutable == 'mixed':
         # a mutable transaction whose lists hold objects of BOTH families (what a caller gets who appends parsed, immutable
         # inputs to a transaction under construction): immutable input / mutable input / mutable input around an immutable outpoint
@@ -35,6 +45,107 @@ def mk_tx(m, mutable=False, wit_mode='auto'):
     if m.get('wit') is None:
         return cls(vin, vout, m['locktime'], m['version'])
     return cls(vin, vout, m['locktime'], m['version'], mk_witness(m['wit']))
+
+
+class UserInt(int):
+    """a caller's own integer type (what an IntEnum member, a numpy integer, a unit-carrying wrapper are to the library)"""
+    __slots__ = ()
+
+
+class UserBytes(bytes):
+    __slots__ = ()
+
+
+class UserStr(str):
+    """a str subclass whose str() is NOT its text (like a str-mixin Enum member on Python >= 3.11)"""
+    __slots__ = ()
+
+    def __str__(self):
+        return 'UserStr.MEMBER'
+
+
+class UserTx(CTransaction):
+    """a caller's subclass of the immutable transaction with the coarser identity wallets like: same txid = same transaction"""
+    __slots__ = ()
+
+    def __eq__(self, other):
+        return isinstance(other, CTransaction) and self.GetTxid() == other.GetTxid()
+
+    def __ne__(self, other):
+        return not self.__eq__(other)
+
+    def __hash__(self):
+        return hash(self.GetTxid())
+
+
+class AnyEqTx(CTransaction):
+    """the coarsest identity a caller's subclass can have: every instance equals every other and hashes alike (records keyed by
+    something outside the transaction). Legitimate, if odd - and poison for any memo table keyed by the object"""
+    __slots__ = ()
+
+    def __eq__(self, other):
+        return isinstance(other, AnyEqTx)
+
+    def __ne__(self, other):
+        return not isinstance(other, AnyEqTx)
+
+    def __hash__(self):
+        return 7
+
+
+class _Audited:
+    """mix-in of a caller's subclasses of the MUTABLE classes: every assignment goes through an override (an audit trail, a
+    validation hook ...) and then happens as usual"""
+    __slots__ = ()
+
+    def __setattr__(self, name, value):
+        super().__setattr__(name, value)
+
+
+class UserMutOutPoint(_Audited, CMutableOutPoint):
+    __slots__ = ()
+
+
+class UserMutTxIn(_Audited, CMutableTxIn):
+    __slots__ = ()
+
+
+class UserMutTxOut(_Audited, CMutableTxOut):
+    __slots__ = ()
+
+
+class UserMutTx(_Audited, CMutableTransaction):
+    __slots__ = ()
+
+
+def user_mut_tx(m):
+    vin = [UserMutTxIn(UserMutOutPoint(h, n), CScript(sc), seq) for h, n, sc, seq in m['vin']]
+    vout = [UserMutTxOut(v, CScript(sc)) for v, sc in m['vout']]
+    if m.get('wit') is None:
+        return UserMutTx(vin, vout, m['locktime'], m['version'])
+    return UserMutTx(vin, vout, m['locktime'], m['version'], mk_witness(m['wit']))
+
+
+def int_kinds(v):
+    """the integer v as the kinds of integer callers hold: int, a user subclass, an IntEnum member (bool for 0 / 1)"""
+    import enum
+    out = [('int', int(v)), ('int-subclass', UserInt(v))]
+    try:
+        out.append(('IntEnum', enum.IntEnum('Named', {'MEMBER': int(v)}).MEMBER))
+    except Exception:
+        pass
+    if v in (0, 1):
+        out.append(('bool', bool(v)))
+    return out
+
+
+def user_tx(m):
+    """model -> UserTx (immutable members)"""
+    vin = [CTxIn(COutPoint(h, n), CScript(sc), seq) for h, n, sc, seq in m['vin']]
+    vout = [CTxOut(v, CScript(sc)) for v, sc in m['vout']]
+    if m.get('wit') is None:
+        return UserTx(vin, vout, m['locktime'], m['version'])
+    return UserTx(vin, vout, m['locktime'], m['version'], mk_witness(m['wit']))
 
 
 def tx_model_of(tx):
@@ -74,7 +185,7 @@ def flagset(names):
 def spellings(b, with_script=False):
     """the same byte string as the API's callers may hold it: bytes, bytearray, memoryview (and a CScript, which is a bytes
     subclass with its own + and iteration)"""
-    out = [('bytes', bytes(b)), ('bytearray', bytearray(b)), ('memoryview', memoryview(bytes(b)))]
+    out = [('bytes', bytes(b)), ('bytearray', bytearray(b)), ('memoryview', memoryview(bytes(b))), ('bytes-subclass', UserBytes(b))]
     if with_script:
         out.append(('cscript', CScript(bytes(b))))
     return out
@@ -154,3 +265,161 @@ def _poison():
             f()
         except Exception:
             pass
+
+
+_CHURN = [0]
+
+
+def churn(scale=1.0):
+    """Thousands of DISTINCT, successful, ordinary operations of every family (keys derived / parsed / hashed / verified through a
+    script, subscripts with code separators hashed, immutable transactions hashed both ways, output scripts parsed, addresses
+    rendered and parsed, compact targets checked, frames parsed): more distinct objects than any bounded memo table in the
+    library could reasonably hold. The runner calls it at the end of a task and then RE-RUNS the task's first cases: a cache that
+    evicts wrongly at its size limit, a counter that wraps, an id() reused after garbage collection shows up as a case that
+    passed at the start and fails now. Nothing here is an oracle; every step is swallowed."""
+    import io
+    import bitcoin
+    from bitcoin.core import (CTransaction, CTxIn, CTxOut, COutPoint, CMutableTransaction, Hash160, CheckProofOfWork, CTxWitness, CTxInWitness)
+    from bitcoin.core.script import SignatureHash, RawSignatureHash, SIGVERSION_WITNESS_V0, CScriptWitness
+    from bitcoin.core.scripteval import VerifyScript
+    from bitcoin.wallet import CBitcoinSecret, P2PKHBitcoinAddress, P2WPKHBitcoinAddress, CBitcoinAddress
+    from bitcoin.core.key import CPubKey
+    _CHURN[0] += 1
+    base = _CHURN[0] * 100003
+    n_keys = int(1100 * scale)
+
+    def sw(f):
+        try:
+            return f()
+        except Exception:
+            return None
+    tx = sw(lambda: CTransaction([CTxIn(COutPoint(b'\x0c' * 32, 1), CScript(b''), 0xfffffffe)], [CTxOut(1, CScript(b'\x51'))], 0, 1))
+    dg = b'\x5a' * 32
+    for i in range(n_keys):
+        def one(i=i):
+            k = CBitcoinSecret.from_secret_bytes(((base + i) % (2 ** 200) + 2).to_bytes(32, 'big'), bool(i % 2))
+            pub = CPubKey(bytes(k.pub))         # parsed from its bytes, like a key met in a script or a message
+            Hash160(pub)
+            a = P2PKHBitcoinAddress.from_pubkey(pub)
+            CBitcoinAddress(str(a))
+            if i % 3 == 0:
+                w = P2WPKHBitcoinAddress.from_scriptPubKey(CScript(b'\x00\x14' + Hash160(pub)))
+                CBitcoinAddress(str(w))
+            if i % 3 == 0:
+                sig = k.sign(dg)
+                pub.verify(dg, sig)
+            if True:
+                spk = CScript(bytes([len(pub)]) + bytes(pub) + b'\xac')
+                h = SignatureHash(spk, tx, 0, 1)
+                sig = k.sign(h) + b'\x01'
+                VerifyScript(CScript(bytes([len(sig)]) + sig), spk, tx, 0, ())
+        sw(one)
+    for i in range(int(1100 * scale)):
+        sc = CScript(b'\xab\x02' + ((base + i) % 65536).to_bytes(2, 'big') + b'\x75\xab\x51')
+        sw(lambda: RawSignatureHash(sc, tx, 0, 1))
+    for i in range(int(600 * scale)):
+        def one(i=i):
+            t = CTransaction([CTxIn(COutPoint(b'\x0d' * 32, i % 7), CScript(b'\x51'), 5)], [CTxOut(i, CScript(b'\x52'))], (base + i) % 499999999, 2,
+                             CTxWitness([CTxInWitness(CScriptWitness([b'w%d' % i]))]))
+            SignatureHash(CScript(b'\x51'), t, 0, 1 + (i % 3), amount=i, sigversion=SIGVERSION_WITNESS_V0)
+            SignatureHash(CScript(b'\x51'), t, 0, 1)
+            t.GetTxid(); t.GetHash(); hash(t)
+            CTransaction.deserialize(t.serialize())
+            CMutableTransaction.from_tx(t).GetTxid()
+        sw(one)
+    for i in range(int(4200 * scale)):
+        raw = b'\x01\x00\x00\x00\x00\x00\x00\x00\x05\x6a\x03' + ((base + i) % (1 << 24)).to_bytes(3, 'big')
+        sw(lambda: CTxOut.deserialize(raw))
+    for i in range(40):
+        nb = 0x1c000000 | (0x00ffff - ((base + i * 97) % 0x7fff))
+        sw(lambda: CheckProofOfWork(bytes(32), nb))
+    try:
+        from bitcoin.messages import MsgSerializable, msg_tx, msg_ping
+        for i in range(int(120 * scale)):
+            def one(i=i):
+                m = msg_tx()
+                m.tx = CTransaction([CTxIn(COutPoint(b'\x0e' * 32, i % 5), CScript(b''), 1)], [CTxOut(i, CScript(b'\x51'))], (base + i) % 400000000, 1)
+                MsgSerializable.from_bytes(m.to_bytes())
+                p = msg_ping(); p.nonce = base + i
+                MsgSerializable.stream_deserialize(io.BytesIO(p.to_bytes()))
+            sw(one)
+    except Exception:
+        pass
+
+
+def in_threads(jobs, seconds=1.0, nthreads=4):
+    """jobs: list of (label, zero-argument function returning a comparable value, expected value). Every function is called
+    from `nthreads` threads at once, round robin, with a tiny switch interval, until `seconds` have passed; returns the list of
+    (label, got) that differ from the expected value (or raised). The functions must only share what the API's contract lets
+    callers share (the library itself; an object that the calls only read)."""
+    import sys
+    import threading
+    import time
+    bad = []
+    deadline = time.time() + seconds
+
+    def work(k):
+        i = k
+        while time.time() < deadline and len(bad) < 5:
+            label, fn, want = jobs[i % len(jobs)]
+            i += 1
+            try:
+                got = fn()
+            except Exception as e:
+                got = 'raised %s: %s' % (type(e).__name__, str(e)[:80])
+            if got != want:
+                bad.append((label, got))
+    old = sys.getswitchinterval()
+    sys.setswitchinterval(1e-6)
+    try:
+        ths = [threading.Thread(target=work, args=(k,)) for k in range(nthreads)]
+        for t in ths:
+            t.start()
+        for t in ths:
+            t.join()
+    finally:
+        sys.setswitchinterval(old)
+    return bad
+
+
+_UNPICKLE = r"""
+import sys, pickle
+sys.path.insert(0, sys.argv[1])
+import bitcoin.core
+objs = pickle.loads(bytes.fromhex(sys.stdin.read()))
+bad = []
+for i, o in enumerate(objs):
+    twin = type(o).deserialize(o.serialize())
+    if not (o == twin) or (o != twin) or hash(o) != hash(twin) or (hasattr(o, 'GetHash') and o.GetHash() != twin.GetHash()) or o not in {twin}:
+        bad.append(i)
+print('BAD %r' % bad if bad else 'OK')
+"""
+
+
+def pickle_across_processes(objs):
+    """objects that have been hashed, pickled here, and loaded in ANOTHER interpreter (another hash seed): there they must equal
+    a twin parsed from their own serialisation in every respect (==, hash(), set membership, identifiers). Returns None when
+    the objects do not support pickling at all (then there is nothing to say), else a list of indices that misbehave."""
+    import pickle
+    import subprocess
+    import sys
+    from .runner import REPO
+    for o in objs:
+        hash(o)
+        if hasattr(o, 'GetHash'):
+            o.GetHash()
+    try:
+        blob = pickle.dumps(objs)
+        pickle.loads(blob)
+    except Exception:
+        return None
+    out = subprocess.run([sys.executable, '-B', '-c', _UNPICKLE, REPO], input=blob.hex(), capture_output=True, text=True, timeout=120,
+                         env=dict(os.environ, PYTHONHASHSEED='4242'))
+    line = (out.stdout.strip().splitlines() or [''])[-1]
+    if line.startswith('OK'):
+        return []
+    if line.startswith('BAD'):
+        return eval(line[4:])
+    if 'Error' in out.stderr:
+        return None            # cannot be loaded over there: no pickle support after all
+    return None
